@@ -126,6 +126,38 @@ def check_mesh(name, g, mesh, slabs, report):
         report(name, "closed-curve-at-least-three-elements-per-slab/slabs={}".format(slabs), worst is not None and worst >= 3, dict(min_ring=worst))
 
 
+def alias_checks(name, rng, report):
+    """A curve stays the curve it was built as: the caller's vertex arrays (float64 and integer) are modified in place after the
+    construction (and after a mesh was built on it); every piece, the whole-curve evaluation and the break points are unchanged."""
+    import numpy as np
+    from src import parametrization as P
+    from src.mesh import MeshParametrized
+    n = 0
+    for dtype in (float, int):
+        for (w, h) in ((1, 1), (2, 1), (3, 2)):
+            verts = [np.array(v, dtype=dtype) for v in ((0, 0), (w, 0), (w, h), (0, h), (0, 0))]
+            with contextlib.redirect_stdout(io.StringIO()):
+                g = P.PiecewisePolygon(verts)
+                mesh = MeshParametrized(g)
+            L = g.gamma_length
+            xs = sorted(set([0.0, L] + [float(v) for v in g.pw_start] + [rng.uniform(0, L) for _ in range(20)]))
+            def snapshot():
+                out = [np.array(g.eval(np.array([x]))) for x in xs]
+                for i, piece in enumerate(g.pw_gamma):
+                    out += [np.array(piece(g.pw_start[i])), np.array(piece(g.pw_start[i + 1]))]
+                out += [np.array(e.gamma_space(0.5 * (e.space_interval[0] + e.space_interval[1]))) for e in mesh.leaf_elements]
+                return out
+            before = snapshot()
+            for v in verts:                      # the caller re-uses its arrays for the next domain
+                v *= 3
+                v += 1
+            after = snapshot()
+            ok = len(before) == len(after) and all(np.array_equal(a, b) for a, b in zip(before, after))
+            report(name, "curve-unchanged-when-the-caller-later-modifies-its-vertex-arrays/" + dtype.__name__, ok, dict(rectangle=(w, h)))
+            n += len(before)
+    return n
+
+
 def run(chk, tier, seed):
     rng = random.Random(seed)
     results = {}
@@ -146,6 +178,11 @@ def run(chk, tier, seed):
             import traceback
             report(name, "shipped-curve-and-mesh-construct-without-error", False,
                    dict(error="{}: {}".format(type(e).__name__, e), where=traceback.format_exc()[-300:]))
+    try:
+        n += alias_checks("user-polygon", rng, report)
+    except BaseException as e:
+        report("user-polygon", "curve-unchanged-when-the-caller-later-modifies-its-vertex-arrays/raised", False,
+               dict(error="{}: {}".format(type(e).__name__, e)))
     for (curve, clause), r in sorted(results.items()):
         nm = "C18/bounded/{}/{}".format(curve, clause)
         if r["fails"]:
@@ -160,6 +197,7 @@ rng = random.Random({seed})
 for nme in curves_rt.CURVES:
     curves_rt.curve_checks(nme, rng, report)
     curves_rt.mesh_checks(nme, rng, report, {tier!r})
+curves_rt.alias_checks("user-polygon", rng, report)
 observed = [k for k, v in res.items() if not all(v)]
 violated = not all(res.get(({curve!r}, {clause!r}), [True]))
 ''').format(seed=seed, tier=tier, curve=curve, clause=clause)
